@@ -77,6 +77,21 @@ def _remove_leading_empty_lines(s: str) -> str:
     return "\n".join(lines)
 
 
+_STRING_LITERAL_PATTERN = re.compile(r'"(?:\\.|[^"\\])*"|\'(?:\\.|[^\'\\])*\'')
+
+
+def _escape_inner_expressions(code: str) -> str:
+    """Neutralize `{...}` inner expressions in the string literals of LLM generated code.
+
+    The text of an utterance produced by the LLM is data, not a template: without this,
+    `bot say "{$system.config}"` would be evaluated when the generated flow runs.
+    Doubled curly brackets are rendered as single ones by the expression evaluation.
+    """
+    return _STRING_LITERAL_PATTERN.sub(
+        lambda m: m.group(0).replace("{", "{{").replace("}", "}}"), code
+    )
+
+
 class LLMGenerationActionsV2dotx(LLMGenerationActions):
     """Adapted version of LLMGenerationActions for Colang 2.x.
 
@@ -383,6 +398,8 @@ class LLMGenerationActionsV2dotx(LLMGenerationActions):
         if bot_action is None:
             raise LlmResponseError(f"Issue with LLM response: {result}")
 
+        bot_action = _escape_inner_expressions(bot_action)
+
         user_intent = escape_flow_name(user_intent.strip(" "))
 
         if bot_intent:
@@ -586,9 +603,13 @@ class LLMGenerationActionsV2dotx(LLMGenerationActions):
         lines = _remove_leading_empty_lines(result).split("\n")
 
         if lines[0].startswith("flow"):
-            return f"flow {lines[0][5:]}\n" + "\n".join(lines[1:])
+            return f"flow {lines[0][5:]}\n" + _escape_inner_expressions(
+                "\n".join(lines[1:])
+            )
         else:
-            return f"flow {name}\n  " + "\n  ".join([line.lstrip() for line in lines])
+            return f"flow {name}\n  " + _escape_inner_expressions(
+                "\n  ".join([line.lstrip() for line in lines])
+            )
 
     @action(
         name="GenerateFlowContinuationAction", is_system_action=True, execute_async=True
@@ -666,6 +687,8 @@ class LLMGenerationActionsV2dotx(LLMGenerationActions):
 
         if bot_action is None:
             raise LlmResponseError(f"Issue with LLM response: {result}")
+
+        bot_action = _escape_inner_expressions(bot_action)
 
         if bot_intent:
             bot_intent = escape_flow_name(bot_intent.strip(" "))
